@@ -131,7 +131,8 @@ fn main() {
     // watchdog: no completed operation for 30 s => backtraces through gdb
     let stalled = Arc::new(AtomicBool::new(false));
     let done = Arc::new(AtomicBool::new(false));
-    {
+    // (not under an interpreter: Miri has its own deadlock report, cannot spawn gdb, and is slow enough to look stalled)
+    if !args.flag("no_watchdog") {
         let (stalled, done) = (stalled.clone(), done.clone());
         let tmpdir = args.str("tmpdir", "/verif/evidence/tmp");
         std::thread::spawn(move || {
